@@ -1823,9 +1823,13 @@ def git_paths_after_double_dash(ctx, rule):
         for c in calls_in(fn, nested=False):
             if dotted(c.func) not in ('check_output', 'check_call', 'subprocess.check_output', 'subprocess.check_call', 'Popen', 'subprocess.Popen', 'call'):
                 continue
-            if not (c.args and isinstance(c.args[0], ast.List) and c.args[0].elts and const_val(c.args[0].elts[0]) == 'git'):
+            argv = c.args[0] if c.args else None
+            if isinstance(argv, ast.Name):       # the argument list bound once to a local
+                ds = [x.value for x in walk_no_nested(fn) if isinstance(x, ast.Assign) and len(x.targets) == 1 and isinstance(x.targets[0], ast.Name) and x.targets[0].id == argv.id]
+                argv = ds[0] if len(ds) == 1 else None
+            if not (isinstance(argv, ast.List) and argv.elts and const_val(argv.elts[0]) == 'git'):
                 continue
-            elts = c.args[0].elts
+            elts = argv.elts
             var_paths = [i for i, e in enumerate(elts) if isinstance(e, ast.Name) and ('path' in e.id.lower() or 'file' in e.id.lower())]
             if not var_paths:
                 continue
@@ -4860,6 +4864,15 @@ def _r_difflib_callers(ctx, rule):
             ctx.inst(rule, fid, repo.norm(c)[:80], ok, why if ok else
                      'difflib\'s SequenceMatcher is used on a sequence that is not known to consist of characters: it matches items by hash and ==, so an item that only changes '
                      'its JSON type (1 -> 1.0 -> true, 0.0 -> -0.0) is aligned as unchanged and the change is missing from the diff', c)
+    # ... and nobody else turns the blocks of a SequenceMatcher into a diff
+    for fid, fn in sorted(repo.functions.items()):
+        if not fid.startswith('nbdime.') or '.tests.' in fid or fid.split(':')[0] == 'nbdime.diffing.seq_difflib':
+            continue
+        for c in calls_in(fn, nested=False):
+            if isinstance(c.func, ast.Attribute) and c.func.attr in ('get_opcodes', 'get_matching_blocks', 'get_grouped_opcodes'):
+                ctx.inst(rule, fid, repo.norm(c)[:60], False,
+                         'a diff is derived from difflib\'s matching blocks outside seq_difflib: SequenceMatcher matches by hash and ==, whatever the items are wrapped in '
+                         '((float, 0.0) == (float, -0.0)), so the type-strict equality of the differ is bypassed', c)
     if n < 2:
         raise AnalysisError('fewer than two callers of diff_sequence_difflib found')
 
@@ -5225,3 +5238,168 @@ def r15_18(ctx, rule):
     ctx.inst(rule, 'apply_decisions / applyDecisions', 'collected diffs of one path', ok, 'both sides combine patches on the same key' if ok else
              'Python combines (%s), TypeScript concatenates: two same-path decisions that both patch key K (what resolve_strategy_record_conflicts produces for /metadata under '
              'the inline strategy) make patchObject throw "Missing key" / patchSequence duplicate the item in the browser' % repo.norm(py[0])[:50], None)
+
+
+@extra('C16', 'R16.25', 'a table keyed by decision actions that is indexed with a decision\'s action covers every action the merger can emit: a dict literal of the package whose keys '
+       'are action names and that is subscripted with `<x>.action` lacks none of them (a missing action is a KeyError in the middle of the rendering)', 1)
+def r16_25(ctx, rule):
+    from ..mergefacts import emitted_actions
+    repo, cg = ctx.repo, ctx.cg
+    em = emitted_actions(repo, cg)
+    acts = set(em) if not isinstance(em, dict) else set(em.keys())
+    acts = {a for a in acts if isinstance(a, str)}
+    if len(acts) < 6:
+        raise AnalysisError('fewer emitted actions recovered than expected')
+    n = 0
+    for mname, m in sorted(repo.modules.items()):
+        if not mname.startswith('nbdime.') or '.tests.' in mname:
+            continue
+        for nm, vals in m.assigns.items():
+            for v in vals:
+                if not isinstance(v, ast.Dict):
+                    continue
+                keys = {const_val(k) for k in v.keys if k is not None}
+                if len(keys & acts) < 3:
+                    continue
+                # indexed with .action somewhere in the module?
+                idx = [x for fid, fn in repo.functions.items() if fid.split(':')[0] == mname for x in ast.walk(fn)
+                       if isinstance(x, ast.Subscript) and isinstance(x.value, ast.Name) and x.value.id == nm and isinstance(x.slice, ast.Attribute) and x.slice.attr == 'action']
+                if not idx:
+                    continue
+                n += 1
+                missing = sorted(acts - keys)
+                ctx.inst(rule, '%s.%s' % (mname, nm), 'action table indexed with .action', not missing, 'covers all %d emitted actions' % len(acts) if not missing else
+                         'no entry for %s: rendering a decision with that action raises KeyError (take_max is emitted for every two-sided nbformat_minor change)' % missing, idx[0])
+    ctx.inst(rule, 'nbdime', 'action tables', True, '%d table(s) indexed by action, %d emitted actions' % (n, len(acts)), None, nontrivial=True)
+
+
+@extra('C08', 'R08.17', 'the file names given on the command line are used verbatim: the argparse path type (PathType) and the merge entry points apply no expansion or normalisation '
+       '(expanduser / expandvars / abspath / realpath / normpath) -- `$NAME.ipynb` and a directory called `~` are legal names, and git passes %A literally', 1)
+def r08_17(ctx, rule):
+    repo = ctx.repo
+    BAD = {'expanduser', 'expandvars', 'abspath', 'realpath', 'normpath', 'normcase'}
+    fids = [f for f in repo.functions if f.startswith('nbdime.args:PathType.')] + ['nbdime.nbmergeapp:main_merge', 'nbdime.nbmergeapp:main']
+    n = 0
+    for fid in fids:
+        if not repo.has_func(fid):
+            continue
+        fn = repo.func(fid)
+        n += 1
+        bad = [c for c in calls_in(fn, nested=False) if (dotted(c.func) or '').split('.')[-1] in BAD]
+        ctx.inst(rule, fid, 'path handling', not bad, 'names are passed on as given' if not bad else
+                 '%s: the designated output (and the inputs) are not the files the caller named: the merge exits 0 while the named output keeps its old content' % repo.norm(bad[0])[:60],
+                 bad[0] if bad else fn)
+    if n < 2:
+        raise AnalysisError('PathType / main_merge not found')
+
+
+@extra('C01', 'R01.26', 'wherever the differ, the patcher or the merger split a text into lines, the terminators are kept (splitlines(True)): a comparison of splitlines() results without '
+       'them calls two sources equal that differ in a final newline or in CRLF / LF', 1)
+def r01_26(ctx, rule):
+    repo = ctx.repo
+    mods = ('nbdime.diffing.generic', 'nbdime.diffing.sequences', 'nbdime.diff_utils', 'nbdime.patching', 'nbdime.merging.generic', 'nbdime.merging.strategies', 'nbdime.merging.decisions')
+    n = 0
+    for fid, fn in sorted(repo.functions.items()):
+        if fid.split(':')[0] not in mods:
+            continue
+        for c in calls_in(fn, nested=False):
+            if isinstance(c.func, ast.Attribute) and c.func.attr == 'splitlines':
+                n += 1
+                keep = (c.args and const_val(c.args[0]) is True) or any(k.arg == 'keepends' and const_val(k.value) is True for k in c.keywords)
+                ctx.inst(rule, fid, repo.norm(c)[:60], bool(keep), 'terminators kept' if keep else
+                         'lines are split WITHOUT their terminators: what is decided on these lines (equal / changed, how many) ignores the final newline and the kind of line ending', c)
+    if n < 3:
+        raise AnalysisError('fewer splitlines() calls than expected in the differ / patcher / merger')
+
+
+@extra('C20', 'R20.19', 'the diff endpoint diffs the notebooks it read, as read: between get_notebook_argument and diff_notebooks nothing re-binds or receives base / remote (no upgrade, no '
+       'normalisation: nbformat\'s upgrade invents random cell ids, so the answer would differ from the library\'s and from request to request)', 2)
+def r20_19(ctx, rule):
+    repo, cg = ctx.repo, ctx.cg
+    SRV = 'nbdime.webapp.nbdimeserver'
+    for fid, callee in ((SRV + ':ApiDiffHandler.post', 'nbdime.diffing.notebooks:diff_notebooks'), (SRV + ':ApiMergeHandler.post', 'nbdime.merging.notebooks:decide_notebook_merge')):
+        fn = repo.func(fid)
+        lib = [c for c in calls_in(fn, nested=False) if ('func', callee) in cg.resolve(c.func, fn)]
+        if not lib:
+            raise AnalysisError('%s no longer calls %s' % (fid, callee))
+        names = {}
+        for st in walk_no_nested(fn):
+            if isinstance(st, ast.Assign) and isinstance(st.value, ast.Call) and isinstance(st.value.func, ast.Attribute) and st.value.func.attr == 'get_notebook_argument' and \
+                    len(st.targets) == 1 and isinstance(st.targets[0], ast.Name):
+                names[st.targets[0].id] = st
+        if len(names) < 2:
+            raise AnalysisError('%s: the notebooks are not read with get_notebook_argument' % fid)
+        bad = []
+        for x in walk_no_nested(fn):
+            if isinstance(x, (ast.Assign, ast.AugAssign)) and x not in names.values():
+                for t in (x.targets if isinstance(x, ast.Assign) else [x.target]):
+                    for y in ast.walk(t):
+                        if isinstance(y, ast.Name) and y.id in names and isinstance(y.ctx, ast.Store) and x.lineno < lib[0].lineno:
+                            bad.append((x, 're-binds %s' % y.id))
+            if isinstance(x, ast.Call) and x not in lib and x.lineno < lib[0].lineno and not (isinstance(x.func, ast.Attribute) and x.func.attr == 'get_notebook_argument'):
+                for a in list(x.args) + [k.value for k in x.keywords]:
+                    if isinstance(a, ast.Name) and a.id in names:
+                        bad.append((x, 'hands %s to %s' % (a.id, dotted(x.func) or '?')))
+        ok = not bad
+        ctx.inst(rule, fid, 'notebooks between reading and %s' % callee.split(':')[1], ok, 'diffed / merged as read' if ok else
+                 '%s (%s): the library is asked about other documents than the ones the request names' % (repo.norm(bad[0][0])[:60], bad[0][1]), bad[0][0] if bad else lib[0])
+
+
+@extra('C04', 'R04.15', 'the format minor version is always settled by take-max: every value stored under "/nbformat_minor" in the strategy table is the constant "take-max" -- with any '
+       'other strategy the merged notebook can declare a lower minor than a side whose one-sided additions (cell ids) it contains', 1)
+def r04_15(ctx, rule):
+    repo = ctx.repo
+    fid = 'nbdime.merging.notebooks:notebook_merge_strategies'
+    fn = repo.func(fid)
+    vals = []
+    for x in ast.walk(fn):
+        if isinstance(x, ast.Dict):
+            for k, v in zip(x.keys, x.values):
+                if const_val(k) == '/nbformat_minor':
+                    vals.append((v, x))
+        if isinstance(x, ast.Assign):
+            for t in x.targets:
+                if isinstance(t, ast.Subscript) and const_val(t.slice) == '/nbformat_minor':
+                    vals.append((x.value, x))
+    if not vals:
+        raise AnalysisError('notebook_merge_strategies: no entry for /nbformat_minor')
+    for v, at in vals:
+        ok = const_val(v) == 'take-max'
+        ctx.inst(rule, fid, '/nbformat_minor -> %s' % ast.unparse(v)[:30], ok, 'take-max' if ok else
+                 'the minor version follows `%s`: under use-local / use-base the merged notebook declares the lower version while it carries the ids the upgraded side added '
+                 '(schema: "id was unexpected")' % ast.unparse(v)[:30], at)
+
+
+@extra('C17', 'R17.20', 'git is asked for machine-readable output wherever a path comes back: every `git check-attr` is run with -z (without it git C-quotes paths with non-ASCII '
+       'bytes, quotes or backslashes, and a prefix match on the path fails silently: the clean filter is not applied)', 1)
+def r17_20(ctx, rule):
+    repo = ctx.repo
+    n = 0
+    for fid, fn in sorted(repo.functions.items()):
+        if not fid.startswith('nbdime.') or '.tests.' in fid:
+            continue
+        for x in walk_no_nested(fn):
+            if isinstance(x, ast.List) and 'check-attr' in [const_val(e) for e in x.elts]:
+                n += 1
+                ok = '-z' in [const_val(e) for e in x.elts]
+                ctx.inst(rule, fid, repo.norm(x)[:70], ok, 'NUL-separated output' if ok else
+                         'check-attr without -z: for a notebook named résumé.ipynb or say "hi".ipynb git prints a quoted path, the answer is not recognised and the working-tree '
+                         'side is handed out unfiltered', x)
+    if n == 0:
+        raise AnalysisError('no git check-attr invocation found')
+
+
+@extra('C15', 'R15.19', 'both sides resolve take_max over the SAME three values: Python\'s maximum ranges over base, local and remote (C04 R04.4), as the TypeScript arm does -- the decision '
+       'list on the wire is identical either way, only the applied value differs', 1)
+def r15_19(ctx, rule):
+    from ..report import run_sub
+    from . import c04
+    run_sub(ctx, c04, {'R04.4': rule})
+
+
+@extra('C15', 'R15.20', 'the decisions reach the browser in the order validated() gives them (C09 R09.2): the TypeScript applyDecisions concatenates same-path diffs in the order received and '
+       'patchSequence needs ascending keys, so a re-ordering after the sort that Python\'s combine_patches absorbs duplicates or misplaces items in the browser', 1)
+def r15_20(ctx, rule):
+    from ..report import run_sub
+    from . import c09
+    run_sub(ctx, c09, {'R09.2': rule})
